@@ -36,6 +36,9 @@ class ParseSoup(Stream):
             "a=1\n.type = int(value_min=dict()['%s'])",
             "a=1\n.type = floats(size=getattr(1,'%d'))",
             "a=1\n.type = ints(value_max=int('%s'))",
+            # formerly: a type expression that evaluates to something else than a converter (repaired in /repo: weakref TypeError)
+            "x = 1\n.type = int(), 5", "x = 1\n.type = int().phil_type", "x = 1\n.type = int(value_min=2).value_min",
+            "x = 1\n.type = choice(multi=1) ,", "x = 1\n.type = floats(size=2) + 1",
         ]
 
     def cases(self, rng, tier):
@@ -350,10 +353,11 @@ class FetchNoCrash(_c04.FetchShape):
 
 
 from c16_returns import Returns  # noqa: E402  (wall-clock bound in a child interpreter)
+from c15 import ValidateLines  # noqa: E402  (definition.validate / try_tokenize on entry-field text: blank-only, multi-line, unclosed quotes)
 
 SPEC = {
     "clusters": ["Parse", "Tok", "Conv", "Fetch", "Extract"],
-    "streams": [Returns, ParseSoup, ArgSoup, OffRegionSoup, ScanNoCrash, ConverterValues, TextConverterValues, FetchNoCrash],
+    "streams": [Returns, ValidateLines, ParseSoup, ArgSoup, OffRegionSoup, ScanNoCrash, ConverterValues, TextConverterValues, FetchNoCrash],
     "match_finding": match_finding,
     "rule": "PHIL-biased token soup and 1-2 mutations (delete/duplicate/transpose/truncate/insert) of generated documents into freephil.parse "
             "and into argument_interpreter.process_arg; observation = outcome class (ok / RuntimeError / Sorry / other:<Class>); the model's "
